@@ -1687,6 +1687,8 @@ func (it *Interp) builtin(name string, args []Value, site ssa.CallInstruction) V
 		return nil
 	case "print", "println":
 		return nil
+	case "ssa:deferstack":
+		return nil
 	case "ssa:wrapnilchk":
 		if p, ok := args[0].(*Ptr); ok && p == nil {
 			panic(&GoPanic{Msg: "value method called using nil pointer"})
@@ -1723,6 +1725,9 @@ func (it *Interp) builtin(name string, args []Value, site ssa.CallInstruction) V
 			mv.Keys = nil
 		}
 		return nil
+	}
+	if len(args) == 0 {
+		panic(unsupported("builtin " + name + "()"))
 	}
 	panic(unsupported(fmt.Sprintf("builtin %s(%T)", name, args[0])))
 }
